@@ -8,12 +8,32 @@ open ArgoVerif ArgoVerif.Model.Sched
 
 /-- the edges of the life-cycle automaton that the scheduling code can produce.  Besides the documented
 READY→RUNNING→(BLOCKED→READY→RUNNING)*→TERMINATED they are: RUNNING→READY (a yield), READY→READY (re-push after a
-migration, store of the same value), BLOCKED→RUNNING (directed resume: resume_yield_to, exit hand-off to a joiner) and
-READY→TERMINATED (a unit cancelled before it ever ran / while waiting in a pool) -/
+migration, store of the same value), BLOCKED→RUNNING (directed resume: resume_yield_to, exit hand-off to a joiner),
+READY→TERMINATED (a unit cancelled before it ever ran / while waiting in a pool) and TERMINATED→READY, the first step of
+`thread_revive` (see `terminated_left_only_by_revive`) -/
 def Edge : USt → USt → Prop
   | .ready, .running | .running, .ready | .ready, .ready | .running, .blocked | .blocked, .ready | .blocked, .running
-  | .running, .terminated | .ready, .terminated => True
+  | .running, .terminated | .ready, .terminated | .terminated, .ready => True
   | _, _ => False
+
+/-- **the only way out of TERMINATED is a revive**: a store into a terminated unit's state is the READY store of
+`thread_revive` on a unit that is terminated and not freed; it puts the unit out of everybody's reach (`reviving`) until
+the revive event re-creates it -/
+theorem terminated_left_only_by_revive (s s' : St) (h : machine.Reachable s) (u : UnitId) (v : USt)
+    (ht : s.st u = .terminated) (hs : step s (.setSt u v) = some s') :
+    v = .ready ∧ s.loc u = .done ∧ s'.loc u = .reviving ∧ s'.st u = .ready := by
+  have h2 := ((inv_reachable s h).termLoc u).mp ht
+  simp only [step, stepSetSt] at hs
+  cases v <;> cases hl : s.loc u <;> simp only [hl] at hs <;> (repeat' (split at hs)) <;> (try cases hs) <;>
+    simp_all [upd]
+
+/-- a unit being revived can only be re-created: nothing else applies to it -/
+theorem reviving_only_created (s s' : St) (e : Ev) (u : UnitId) (hl : s.loc u = .reviving) (hs : step s e = some s') :
+    s'.loc u = .reviving ∨ (∃ p, e = .create u p) := by
+  cases e <;>
+    simp only [step, stepCreate, stepPush, stepPop, stepSetSt, stepRun, stepUserStart, stepUserEnd, stepCb, stepIncB,
+      stepDecB, stepResume, stepFinish, stepTerminate, stepFree, stepReqSet, stepReqClr, stepMigrate, stepJoinRet, stepXferB] at hs <;>
+    (repeat' (split at hs)) <;> (try cases hs) <;> simp_all [setLoc, upd, pushable] <;> grind
 
 /-- **life_transitions**: every store to a unit's state in a reachable state follows an edge of the automaton; in
 particular nothing is ever stored after TERMINATED (until a revive), BLOCKED is entered only from RUNNING, and
@@ -58,7 +78,8 @@ theorem free_once (s s' : St) (u : UnitId) (hs : step s (.free u) = some s') :
   · cases hs
 
 /-- **named units stay joinable until freed, and revive runs once more**: after TERMINATED the state and location are
-frozen until a revive (create) resets the epoch: start counter back to 0, requests cleared, READY -/
+frozen until a revive (READY store, then the revive event = `create`) resets the epoch: start counter back to 0,
+requests cleared (a cancellation or migration request of the first life does not survive), READY -/
 theorem revive_runs_once_more (s s' : St) (u : UnitId) (p : PoolId) (hs : step s (.create u p) = some s') :
     s'.starts u = 0 ∧ s'.ends u = 0 ∧ s'.st u = .ready ∧ s'.loc u = .fresh ∧ s'.reqCancel u = false ∧ s'.reqJoin u = false ∧
     s'.pool u = p := by
@@ -68,7 +89,7 @@ theorem revive_runs_once_more (s s' : St) (u : UnitId) (p : PoolId) (hs : step s
   · cases hs
 
 theorem terminated_is_frozen (s s' : St) (h : machine.Reachable s) (e : Ev) (hs : step s e = some s') (u : UnitId)
-    (ht : s.st u = .terminated) (hne : ∀ p, e ≠ .create u p) : s'.st u = .terminated := by
+    (ht : s.st u = .terminated) (hne : e ≠ .setSt u .ready) (hnc : ∀ p, e ≠ .create u p) : s'.st u = .terminated := by
   have hi := inv_reachable s h
   have hl := (hi.termLoc u).mp ht
   cases e <;>
@@ -81,7 +102,7 @@ example :
     (machine.run init
       [.create 1 0, .push 0 1, .pop 7 0 1, .setSt 1 .running, .run 7 1, .userStart 1, .userEnd 1, .finish 7 1,
        .cb 7 1 .exit, .terminate 1, .setSt 1 .terminated, .joinRet 9 1,
-       .create 1 0, .push 0 1, .pop 7 0 1, .setSt 1 .running, .run 7 1, .userStart 1]).map
+       .setSt 1 .ready, .create 1 0, .push 0 1, .pop 7 0 1, .setSt 1 .running, .run 7 1, .userStart 1]).map
         (fun s => decide (s.starts 1 = 1 ∧ s.st 1 = .running)) = some true := by decide
 
 /-- cancelled while waiting in a pool: READY → TERMINATED at the scheduler that popped it, never started -/
